@@ -84,6 +84,18 @@ THEOREMS = [
     dict(name="Snow.C07.maxprinciple2D_published_coldest", strength="full",
          clause="... with a programme that has not risen and starts at T_0: coldest shelf temperature so far <= reported "
                 "T <= T_0 (cooling-stage rows)"),
+    dict(name="Snow.C07.maxprinciple2D_published_run2D", strength="full",
+         clause="2D shelf/jacket run as _run_2D performs it (shelf samples = profile oc dt, product loaded at the "
+                "programme's start temperature, well-formed programme C05.WF): all reported cooling-stage temperatures lie "
+                "between the shelf temperature of the nucleation step (coldest so far) and the start temperature -- no "
+                "hypothesis on the sampled programme (discharged by C05.profile_antitone / profile_bounds)"),
+    dict(name="Snow.C07.ice_published_1D", strength="full",
+         clause="published histories of run1DOn: the post-nucleation row and every solidification row carry, node by "
+                "node, the liquidus ice iceNode1D of their own reported temperature (so iceNode1D_range gives range, "
+                "ice iff T < T_eq_l and the liquidus relation for every published value); hypotheses SolOK1, 0 < cp, "
+                "0 < mass, 0 < Dh"),
+    dict(name="Snow.C07.solidStep1D_rows", strength="full",
+         clause="every row saved by a 1D solidification step satisfies that relation (invariant of the loop)"),
     dict(name="Snow.C07.maxprinciple1D_cool_run_coldest", strength="full",
          clause="1D shelf, loop states: coldest shelf so far <= every node <= T_0"),
     dict(name="Snow.C07.maxprinciple1D_cool_rows", strength="full",
@@ -151,10 +163,12 @@ PARALLEL = True
 LEVEL_TEXT = ("PARTIAL proof. Lean 4 theorems (exact reals). RUN LEVEL, cooling stage (induction over the loops): 0D, 1D "
               "shelf, 2D shelf/jacket (repaired and in-place update) -- every node stays in the interval spanned by T_0 and "
               "the shelf temperatures applied so far, hence between the coldest shelf so far and T_0 for a non-rising "
-              "programme -- stated on loop states (0D) and on the REPORTED cooling-stage rows of a completed run (1D, 2D) -- "
+              "programme -- stated on loop states (0D) and on the REPORTED cooling-stage rows of a completed run (1D, 2D; for 2D "
+              "also without programme hypotheses, through C05's profile theorems) -- "
               "(hypotheses: CFL from the code's dt, Biot numbers <= 1, named structure StabCtx); every "
               "cooling-stage row of a completed 0D/1D/2D run reports zero ice. NUCLEATION: T_nuc < T_after < T_eq_l, "
-              "0 < m_i < m_w. ICE: 0 <= w_i < w_water, ice iff T < T_eq_l, liquidus relation, for the 2D, 1D and "
+              "0 < m_i < m_w. ICE: 0 <= w_i < w_water, ice iff T < T_eq_l, liquidus relation, for the 2D, 1D (stated on the "
+              "PUBLISHED nucleation and solidification rows of run1DOn) and "
               "nucleation-row formulas (0D conditional on T < T_eq_l) under the named derived-constant relations "
               "DerivedOK. PER ASSIGNMENT ONLY: solidification stage (convex form under sign conditions that the "
               "water/ice pair violates at j = 1). NOT proved, evaluated on every reported node and time: all bounds after "
